@@ -100,7 +100,7 @@ def _after_dirty(trace):
     return out
 
 
-def check(ctx, rep: Report):
+def _check_main(ctx, rep: Report):
     ci = ctx.p.find_class("KeyedList")
     mrel = ci.module.relpath
     # ---- COH: who may write
@@ -325,3 +325,11 @@ def check(ctx, rep: Report):
     rep.oblige("C13.KEY", "KeyedList.__getitem__", ok)
     if not ok:
         rep.violate(Violation("C13.KEY", "C13.KEY|__getitem__", "KeyedList.__getitem__ no longer serves ints from the list and other keys from the key index", "", "KeyedList.__getitem__"))
+
+
+def check(ctx, rep):
+    from . import keyedrules, metarules, shared
+    _check_main(ctx, rep)
+    keyedrules.order_bearing(ctx, rep, "C13.ORDER")
+    keyedrules.key_precedence(ctx, rep, "C13.KEYFN")
+    shared.unused_params(ctx, rep, "C13.PARAM", ["spec_classes.types.keyed"])
